@@ -750,8 +750,8 @@ func sigOf(c Case, plain string) string {
 		shape = "next-to-repeated"
 	case hasAddedReq(c.Target, c.Map):
 		shape = "required"
-	case c.Entry == "MergeRowGroups(schema)":
-		shape = "merge"
 	}
+	// (MergeRowGroups used to have a shape of its own, F38: since its repair the
+	// merge converts through the row path like the other entry points.)
 	return "c12/added-column-levels{shape=" + shape + "}"
 }
